@@ -786,7 +786,7 @@ def phase2_main() -> int:
 class C06(Check):
     id = 'C06'
     quick_runs = 1200
-    expected_probes = ('fresh-interpreter', 'cross-backend', 'real-clock-first-run')
+    expected_probes = ('fresh-interpreter', 'cross-backend', 'real-clock-first-run', 'bust-then-hit')
     rule = ('distinct (specification digest, first-run schedule digest, second-run backend) histories of first run / second run '
             '(/ third run in a fresh interpreter with another hash seed); non-trivial = at least one cacheable task was loaded in the second run')
 
@@ -838,6 +838,30 @@ class C06(Check):
                     probes['cross-backend'] = 1
                 if sc1.get('real_clock'):
                     probes['real-clock-first-run'] = 1
+                if not vs and cfg.chance(1, 3):
+                    # history continues in the same interpreter: re-execution with bust_cache replaces the
+                    # entries (values and metadata of a new generation), and a later hit must return those
+                    sc3 = dict(sc2)
+                    sc3.update({'bust_cache': True, 'gen_main': 3, 'backend': ALL_BACKENDS[cfg.weighted([w for _, w in ALL_BACKENDS])][0]})
+                    out3 = execute(sc3, Choices(seed=f'p2b:{out1.digest()}'), d)
+                    facts3 = O.Facts(sc3, out3)
+                    if out3.kind == 'return':
+                        metas3 = {}
+                        done3 = [n for n in facts3.executed if n in facts3.ends and ref.cacheable(n)]
+                        for n in done3:
+                            ms = [m for _s, m in out3.metas.get(n, []) if m is not None]
+                            if ms:
+                                metas3[str(n)] = list(ms[0])
+                        sc4 = dict(sc2)
+                        sc4.update({'cached': done3, 'gen_pre': 3, 'gen_main': 4,
+                                    'backend': ALL_BACKENDS[cfg.weighted([w for _, w in ALL_BACKENDS])][0]})
+                        res4 = phase2_check(sc4, d, metas3, f'p2c:{out1.digest()}')
+                        for v in res4['violations']:
+                            v['detail'] = '[after a bust_cache re-execution in the same interpreter] ' + v['detail']
+                            v['sig']['after_bust'] = True
+                            vs.append(v)
+                        probes['bust-then-hit'] = 1
+                        sc2, metas1 = sc4, metas3        # what a later (fresh-interpreter) run must now see
                 if fresh and not vs:
                     # third history step in a fresh interpreter under another hash seed
                     env = dict(os.environ)
